@@ -843,6 +843,18 @@ func ruleC04_8(c *Ctx, r *Rep) {
 			}
 		}
 		walk(st.Val, 0)
+		// (d) a private helper that folds the values handed to it with a compare-and-replace loop
+		if call, isC := resolve(st.Val).(*ssa.Call); isC && !good {
+			if h := call.Call.StaticCallee(); h != nil && c.inModule(h) && len(h.Blocks) > 0 && h.Object() != nil && !h.Object().Exported() {
+				isMax, isMin := foldDirection(h)
+				if isMax && !isMin {
+					good = true
+				}
+				if isMin {
+					ok, why = false, "the delay is the minimum of the requested values"
+				}
+			}
+		}
 		if !good && ok {
 			ok, why = false, "the rule cannot see that the delay is the maximum of the requested values"
 		}
@@ -1148,13 +1160,18 @@ func invocationSites(c *Ctx, f *ssa.Function) ([]ssa.Instruction, bool) {
 			}
 		}
 	}
-	for _, v := range vals {
+	for vi := 0; vi < len(vals) && vi < 32; vi++ {
+		v := vals[vi]
 		refs := v.Referrers()
 		if refs == nil {
 			continue
 		}
 		for _, u := range *refs {
 			switch x := u.(type) {
+			case *ssa.ChangeType:
+				// converted to a named function type of the module (`type committedFunc func()`): the same value;
+				// a conversion to the transaction machinery's hook types ends at a call outside the module below
+				vals = append(vals, x)
 			case *ssa.Call:
 				if x.Call.Value == v {
 					out = append(out, x) // invoked on the spot
@@ -1171,7 +1188,8 @@ func invocationSites(c *Ctx, f *ssa.Function) ([]ssa.Instruction, bool) {
 					return nil, false
 				}
 				out = append(out, fieldCalls(c, fa.X.Type(), fieldName(fa.X.Type(), fa.Field))...)
-			case *ssa.ChangeType, *ssa.MakeInterface, *ssa.DebugRef:
+			case *ssa.DebugRef:
+			case *ssa.MakeInterface:
 				// converted to CommitFunc / CommitHook: invoked by the transaction machinery — only acceptable when f
 				// itself holds the Commit invocation, which the caller has already tested
 				return nil, false
@@ -1192,7 +1210,7 @@ func paramOrFieldCalls(c *Ctx, call *ssa.Call, fn *ssa.Function, v ssa.Value) ([
 	}
 	var out []ssa.Instruction
 	for i, a := range call.Call.Args {
-		match := v != nil && strip(a) == v || fn != nil && funcOf(a) == fn
+		match := v != nil && (strip(a) == v || strip(a) == strip(v)) || fn != nil && funcOf(a) == fn
 		if !match || i >= len(g.Params) {
 			continue
 		}
@@ -2028,9 +2046,7 @@ func ruleC17_4(c *Ctx, r *Rep) {
 			n++
 			ok := true
 			for _, alt := range valueAlternatives(m.Arg) {
-				src := sources(alt.v)
-				looked := src["call:Only"] || src["call:First"] || src["call:Get"]
-				if !looked || src["field:Edges"] {
+				if !entityFromLookup(c, alt.v, 0) {
 					ok = false
 				}
 			}
@@ -2154,4 +2170,139 @@ func sameOrigin(a, b ssa.Value) bool {
 		}
 	}
 	return false
+}
+
+// entityFromLookup: v is the entity a query terminal (Only / First / Get) returned — directly, as the result of a
+// module helper all of whose non-nil results are such entities, or its ID field — and not an entity reached through
+// another row's cached edges.
+func entityFromLookup(c *Ctx, v ssa.Value, depth int) bool {
+	if depth > 4 {
+		return false
+	}
+	v = resolve(v)
+	idx := 0
+	var call *ssa.Call
+	switch x := v.(type) {
+	case *ssa.Extract:
+		cl, ok := x.Tuple.(*ssa.Call)
+		if !ok {
+			return false
+		}
+		call, idx = cl, x.Index
+	case *ssa.Call:
+		call = x
+	case *ssa.UnOp:
+		if x.Op == token.MUL {
+			if fa, ok := x.X.(*ssa.FieldAddr); ok && fieldName(fa.X.Type(), fa.Field) == "ID" {
+				return entityFromLookup(c, fa.X, depth+1)
+			}
+		}
+		return false
+	case *ssa.Phi:
+		for _, e := range x.Edges {
+			if !entityFromLookup(c, e, depth+1) {
+				return false
+			}
+		}
+		return len(x.Edges) > 0
+	default:
+		return false
+	}
+	cal := call.Call.StaticCallee()
+	if cal == nil {
+		return false
+	}
+	if c.EntShape().isGenerated(cal) || strings.HasPrefix(fnPkgPath(cal), entPkg) && !c.inModuleHandWritten(cal) {
+		return idx == 0 && in(cal.Name(), "Only", "First", "Get", "OnlyX", "FirstX", "GetX")
+	}
+	if !c.inModule(cal) || len(cal.Blocks) == 0 {
+		return false
+	}
+	n := 0
+	for _, ret := range returnsOf(cal) {
+		if idx >= len(ret.Results) {
+			return false
+		}
+		rv := retResult(ret, idx)
+		if isNilConst(rv) {
+			continue
+		}
+		n++
+		if !entityFromLookup(c, rv, depth+1) {
+			return false
+		}
+	}
+	return n > 0
+}
+
+func (c *Ctx) inModuleHandWritten(f *ssa.Function) bool {
+	return c.inModule(f) && !c.EntShape().isGenerated(f)
+}
+
+// foldDirection: h keeps an accumulator that is replaced by a candidate exactly when `acc < candidate` (a maximum) or
+// `acc > candidate` (a minimum): an If on a comparison between a loop phi and a value which that phi takes on the
+// true side.
+func foldDirection(h *ssa.Function) (isMax, isMin bool) {
+	for _, b := range h.Blocks {
+		if len(b.Instrs) == 0 {
+			continue
+		}
+		iff, ok := b.Instrs[len(b.Instrs)-1].(*ssa.If)
+		if !ok {
+			continue
+		}
+		bo, ok := iff.Cond.(*ssa.BinOp)
+		if !ok {
+			continue
+		}
+		op := bo.Op
+		var acc *ssa.Phi
+		var val ssa.Value
+		if p, isP := bo.X.(*ssa.Phi); isP {
+			acc, val = p, bo.Y
+		} else if p, isP := bo.Y.(*ssa.Phi); isP {
+			acc, val = p, bo.X
+			op = map[token.Token]token.Token{token.LSS: token.GTR, token.GTR: token.LSS, token.LEQ: token.GEQ, token.GEQ: token.LEQ}[op]
+		}
+		if acc == nil || (op != token.LSS && op != token.LEQ && op != token.GTR && op != token.GEQ) {
+			continue
+		}
+		// on the true side the accumulator becomes val: some phi merges val (from the true side) with acc, and feeds acc
+		takes := false
+		for _, blk := range h.Blocks {
+			for _, in := range blk.Instrs {
+				m, isPhi := in.(*ssa.Phi)
+				if !isPhi {
+					continue
+				}
+				hasVal, hasAcc := false, false
+				for _, e := range m.Edges {
+					if e == val {
+						hasVal = true
+					}
+					if e == ssa.Value(acc) {
+						hasAcc = true
+					}
+				}
+				feeds := m == acc
+				for _, e := range acc.Edges {
+					if e == ssa.Value(m) {
+						feeds = true
+					}
+				}
+				if hasVal && hasAcc && feeds {
+					takes = true
+				}
+			}
+		}
+		if !takes {
+			continue
+		}
+		if op == token.LSS || op == token.LEQ {
+			isMax = true
+		} else {
+			isMin = true
+		}
+	}
+	return
 }
